@@ -1,0 +1,8 @@
+//go:build verif
+
+package kit
+
+import "github.com/jsightapi/jsight-api-go-library/core"
+
+// VerifCore exposes the core behind the wrapper to the verification harness.
+func (j JApi) VerifCore() *core.JApiCore { return j.core }
